@@ -176,7 +176,7 @@ SUPPORT = {
     "rcs956": ("TT1", "TT2", "TT4A", "TT4B", "TT3", "DEPA", "DEPF", "DEPACT", "LTT2", "LDEP", "LDEPRX"),
     "acr122": ("TT2", "TT4A", "TT4B", "TT3", "DEPA", "DEPF", "DEPACT"),
     "rcs380": ("TT1", "TT2", "TT4A", "TT4B", "TT3", "DEPA", "DEPF", "LTT2", "LTT4", "LTT3", "LDEP", "LDEPRX"),
-    "udp": ("TT2", "TT3", "DEPA", "LTT3", "LDEP"),
+    "udp": ("TT1", "TT2", "TT4A", "TT4B", "TT3", "DEPA", "DEPF", "LTT2", "LTT4", "LTT3", "LDEP"),
 }
 
 
